@@ -103,7 +103,7 @@ func (q sreqCase) handlerRuns() bool {
 		// the router handler itself is user code: it runs, Bind fails inside it for bad input
 		return q.ser == 1 && !q.badJSON
 	}
-	return q.ser == 1 && !q.badJSON
+	return q.ser == 1 && !q.badJSON && q.mode != "veto"
 }
 
 func (q sreqCase) enc(rid int) string {
@@ -139,6 +139,8 @@ func (q sreqCase) modelTok(rid int) string {
 		h = fmt.Sprintf("f%d", q.text)
 	case "panic":
 		h = fmt.Sprintf("p%d", q.text)
+	case "veto":
+		h = "v901"
 	}
 	dec := !q.badJSON
 	if q.style == "router" && q.badJSON {
@@ -236,6 +238,8 @@ func srvRunCase(o *common.Out, id string, nconn int, reqs []sreqCase, order []in
 			var a SArgs
 			wantErr = json.Unmarshal(q.payload(rid), &a).Error()
 			exact = false // the codec uses a Decoder; the message must at least be a JSON error
+		case q.mode == "veto":
+			wantErr = srvVetoText
 		case q.mode == "err":
 			wantErr = srvTexts[q.text]
 			if wantErr == "" {
@@ -531,6 +535,8 @@ func srvClientCheck(o *common.Out, id, abstract string, rig *srvRig, reqs []sreq
 			want = "rpcx: can't find service NoSvc"
 		case q.style == "nometh":
 			want = "rpcx: can't find method nometh"
+		case q.mode == "veto":
+			want = srvVetoText
 		case q.mode == "err":
 			want = srvTexts[q.text]
 			if want == "" {
@@ -659,6 +665,9 @@ func genSreq(prop string, r *common.Rand, nconn int) sreqCase {
 			q.style = []string{"nosvc", "nometh"}[r.Intn(2)]
 		}
 	}
+	if q.mode == "ok" && r.Chance(12) && (q.style == "method" || q.style == "pooled" || q.style == "func" || q.style == "funcp") {
+		q.mode = "veto"
+	}
 	if r.Chance(25) {
 		q.omitB = true
 	}
@@ -711,6 +720,12 @@ func runSrv(prop string, r *common.Rand, tier string, o *common.Out, replay stri
 				reqs := []sreqCase{mk(1, 2+i, 3, false, true), mk(2, 4, 5+i, false, false), mk(3, 6, 7, false, false),
 					mk(4, 2, 5+i, false, false), mk(5, 3, 9, true, false)}
 				srvRunCase(o, fmt.Sprintf("pool%d%s", i, style), 1, reqs, []int{-1, 0, -2, -3, 2, 1, -4, 3, -5, 4}, false, false)
+				o.Count("pool-reuse-schedule")
+				// a request the pre-call plugin refuses (its argument and reply objects go back to their pools), then two
+				// overlapping requests completed in reverse order, then one more
+				vreqs := []sreqCase{mk(1, 2, 3+i, false, false), mk(2, 4+i, 5, false, false), mk(3, 6, 7+i, false, false), mk(4, 2+i, 9, true, false)}
+				vreqs[0].mode = "veto"
+				srvRunCase(o, fmt.Sprintf("poolv%d%s", i, style), 1, vreqs, []int{-1, -2, -3, 2, 1, -4, 3}, false, false)
 				o.Count("pool-reuse-schedule")
 			}
 		}
